@@ -114,6 +114,7 @@ def run(ctx):
     for cname, attr in (("Fermata", "ref"), ("GenericNote", "fermata"), ("Note", "beam"), ("Beam", "notes")):
         ctx.note("REFS", f"{cname}.{attr} can hold a timed object and is not in _ref_attrs (outside the references the property enumerates)")
     X.rule_replace_refs(ctx)
+    X.rule_map_scope(ctx)
     # ---- LINKS
     ctx.rule("LINKS", "after copying, a loop over consecutive points of the new part sets tp.next / tp_next.prev for every pair")
     loops = [n for n in own_nodes(cv.node) if isinstance(n, ast.For) and "iter_current_next" in norm(n.iter) and "._points" in norm(n.iter)]
